@@ -2,3 +2,4 @@ pub mod adoc;
 pub mod genes;
 pub mod hist;
 pub mod mutate;
+pub mod xgen;
